@@ -701,5 +701,9 @@ pub fn idle_histories() -> Vec<(&'static str, Vec<Tok>)> {
         ("startreset", vec![Tok::Start, Tok::Rst]),
         ("startfinalize", vec![Tok::Start, Tok::Fin]),
         ("noisestartreset", vec![Tok::B(0x55), Tok::Start, Tok::Rst]),
+        // finalize / reset called inside a transmission while zero bytes are withheld (they must not leak into the next one)
+        ("zerosfinalize", vec![Tok::Start, Tok::B(0x55), Tok::B(0), Tok::B(0), Tok::Fin]),
+        ("zerosreset", vec![Tok::Start, Tok::B(0), Tok::B(0), Tok::B(0), Tok::B(0), Tok::B(0), Tok::Rst]),
+        ("okzerosfinalize", vec![Tok::Frame(vec![0x33]), Tok::Start, Tok::B(0), Tok::Fin]),
     ]
 }
